@@ -17,6 +17,8 @@ use std::sync::{Arc, Mutex};
 use std::time::Duration;
 
 type PidKey = (u32, u32);
+const REPLY_ERROR: i64 = i64::MIN;
+const REPLY_OTHER_ATOM: i64 = i64::MIN + 1;
 fn key(p: &ExternalPid) -> PidKey {
     (p.id, p.serial)
 }
@@ -70,6 +72,9 @@ impl Process for Recorder {
                     } else if t.len() == 2 {
                         if let (OwnedTerm::Reference(r), Some(v)) = (&t[0], t[1].as_integer()) {
                             self.log.push(Ev::Reply { by: me, reference: r.ids.clone(), value: v });
+                        } else if let (OwnedTerm::Reference(r), OwnedTerm::Atom(a)) = (&t[0], &t[1]) {
+                            // a reply that is an atom: `error` is what a behaviour answers when it cannot serve the call
+                            self.log.push(Ev::Reply { by: me, reference: r.ids.clone(), value: if a.as_str() == "error" { REPLY_ERROR } else { REPLY_OTHER_ATOM } });
                         }
                     }
                 }
@@ -584,9 +589,12 @@ async fn history(ctx: &Ctx, rng: &mut Rng, hid: usize, yields: bool) {
                 }
             }
         } else if let Some(s) = &manager {
-            let m = OwnedTerm::Tuple(vec![OwnedTerm::atom("$gen_call"), from, OwnedTerm::atom("tripler"), OwnedTerm::Integer(arg)]);
+            // every third call to the manager names a handler that is not installed: the manager answers `error`
+            // and goes on serving
+            let known = c % 3 != 1;
+            let m = OwnedTerm::Tuple(vec![OwnedTerm::atom("$gen_call"), from, OwnedTerm::atom(if known { "tripler" } else { "no_such_handler" }), OwnedTerm::Integer(arg)]);
             if node.send(s, m).await.is_ok() {
-                calls.push((key(caller), r.ids.clone(), arg * 3));
+                calls.push((key(caller), r.ids.clone(), if known { arg * 3 } else { REPLY_ERROR }));
             }
         }
     }
